@@ -192,9 +192,62 @@ def _empty_row_case(rng):
           'input': {'y_true': [r[0] for r in rows], 'y_pred': [r[1] for r in rows]}}
 
 
+def _repeated_id_case(rng):
+  """Rankings in which an id occurs more than once (a candidate list merged
+  from several sources, a generative model that repeats itself): the repeated id
+  may be a relevant or an irrelevant one, the copies sit at any rank (adjacent
+  to the first occurrence or further down), one or several rows are affected.
+  y_true rows stay duplicate-free; every row has >= 1 true label and >= 1
+  prediction; k-lists are ascending (the order / duplicate-k input classes are
+  generated elsewhere) so that nothing but the repetition is special."""
+  alphabet = list(rng.choice([INT_LABELS, STR_LABELS, CHAR_LABELS]))
+  alphabet = alphabet[:rng.randint(3, len(alphabet))]
+  n = rng.choice([1, 1, 2, 3, 4, 6, 8])
+  k_list = _klist(rng, 7) if rng.random() < 0.85 else None
+  kmax = max(k_list) if k_list else 1
+  long_rows = rng.random() < 0.6  # every ranking has >= max(k) positions
+  which = rng.choice(['relevant', 'relevant', 'irrelevant', 'any'])
+  hit = rng.choice([0.3, 0.6, 1.0, 1.0])
+  rows = []
+  marked = set(rng.sample(range(n), rng.randint(1, n)))
+  for i in range(n):
+    t = rng.sample(alphabet, rng.randint(1, min(4, len(alphabet))))
+    p = rng.sample(alphabet, rng.randint(1, min(5, len(alphabet))))
+    if rng.random() < hit and not set(p) & set(t):
+      p[rng.randrange(len(p))] = rng.choice(t)
+    if i in marked:
+      for _ in range(rng.choice([1, 1, 2, 3])):
+        rel = [x for x in p if x in t]
+        irr = [x for x in p if x not in t]
+        want = which if which != 'any' else rng.choice(['relevant', 'irrelevant'])
+        pool = (rel or irr) if want == 'relevant' else (irr or rel)
+        item = rng.choice(pool)
+        first = p.index(item)
+        # the copy goes somewhere behind the first occurrence (next to it or
+        # further down) or, sometimes, in front of it
+        pos = rng.choice([first + 1, rng.randint(first + 1, len(p)),
+                          rng.randint(0, len(p))])
+        p.insert(pos, item)
+    while long_rows and len(p) < kmax:
+      # pad to max(k): fresh ids while there are any, else one more repetition
+      fresh = [x for x in alphabet if x not in p]
+      p.append(rng.choice(fresh) if fresh and rng.random() < 0.7 else rng.choice(p))
+    rows.append([t, p])
+  split = rng.randint(1, n - 1) if n >= 2 and rng.random() < 0.4 else None
+  config = {'k_list': k_list, 'input_type': 'multiclass-multioutput',
+            'split': split, 'repeated_ids': which}
+  return {'family': 'retr', 'config': config,
+          'input': {'y_true': [r[0] for r in rows], 'y_pred': [r[1] for r in rows]}}
+
+
 def gen_retr(rng):
-  if rng.random() < 0.15:
+  r0 = rng.random()
+  if r0 < 0.15:
     return _empty_row_case(rng)
+  if r0 < 0.27:
+    # (a slice of the former "regular" cases: the stream of every other case is
+    # unchanged)
+    return _repeated_id_case(rng)
   n = rng.choice([1, 2, 3, 4, 6, 8, 12])
   r = rng.random()
   config = {'k_list': None, 'input_type': 'multiclass-multioutput', 'split': None}
